@@ -97,6 +97,15 @@ forms! {
     SumAffOwned1: true, false, 1, Sum1;
     SumOwned0: true, false, 0, Sum0;
     SumAffRef0: true, false, 0, Sum0;
+    // sums over iterators whose size_hint lower bound is 0 (filter, take_while, from_fn, flatten, chain)
+    SumOwnedFilter3: true, false, 3, Sum3;
+    SumRefFilter2: true, false, 2, Sum2;
+    SumOwnedFromFn3: true, false, 3, Sum3;
+    SumRefTakeWhile1: true, false, 1, Sum1;
+    SumRefChainRev3: true, false, 3, Sum3;
+    SumAffOwnedFlatten2: true, false, 2, Sum2;
+    SumAffRefFilter3: true, false, 3, Sum3;
+    SumAffOwnedFromFn1: true, false, 1, Sum1;
     // arkworks group traits
     ZeroPlus: true, false, 1, Sum1;
     AffIntoGroupAdd: true, false, 2, Add;
@@ -218,6 +227,20 @@ pub fn apply_ark(f: Form, a: AE, b: AE, c: AE) -> AE {
         Form::SumAffRef0 => {
             let v: Vec<AA> = Vec::new();
             v.iter().sum()
+        }
+        Form::SumOwnedFilter3 => vec![a, b, c].into_iter().filter(|_| true).sum(),
+        Form::SumRefFilter2 => [a, b].iter().filter(|_| true).sum(),
+        Form::SumOwnedFromFn3 => {
+            let mut v = vec![c, b, a];
+            std::iter::from_fn(move || v.pop()).sum()
+        }
+        Form::SumRefTakeWhile1 => [a].iter().take_while(|_| true).sum(),
+        Form::SumRefChainRev3 => [a].iter().filter(|_| true).chain([b, c].iter().rev()).sum(),
+        Form::SumAffOwnedFlatten2 => vec![vec![aff(a)], vec![], vec![aff(b)]].into_iter().flatten().sum(),
+        Form::SumAffRefFilter3 => [aff(a), aff(b), aff(c)].iter().filter(|_| true).sum(),
+        Form::SumAffOwnedFromFn1 => {
+            let mut v = vec![aff(a)];
+            std::iter::from_fn(move || v.pop()).sum()
         }
         Form::ZeroPlus => AE::zero() + a,
         Form::AffIntoGroupAdd => aff(a).into_group() + aff(b).into_group(),
@@ -411,7 +434,7 @@ impl Property for C04 {
     const ID: &'static str = "C04";
     fn rule(&self) -> String {
         "cases: straight-line programs (1..=14 instructions over 5 registers initialised from element recipes) mixing every operator form of the \
-         configuration (53 ark forms: owned/borrowed, assign, mixed affine/projective, Sum over 4 iterator kinds, negate, double; 14 min forms); \
+         configuration (61 ark forms: owned/borrowed, assign, mixed affine/projective, Sum over 4 iterator kinds with exact and with zero size hints, negate, double; 14 min forms); \
          after every instruction the destination's hook coordinates must denote the model's affine-group-law result (either coset point, on the \
          curve, Z != 0, T*Z = X*Y); plus law cases (neutral, P-P, commutative, associative, (P+Q)-Q, P+(-Q)) through the library's equality for \
          every binary form. Non-trivial: a binary instruction on two distinct non-identity elements, or a law case; distinct by digest"
